@@ -21,9 +21,15 @@ CLAIMS = {
  "C07": dict(engine="csim", level="fault_enumeration", design="4 C07",
    text="In seeded multi-round heights (Byzantine noise, small WAL head limits that force rotation inside a height, repeated crashes) validators are killed at quiescent points, at armed write points and with the log tail cut at a seeded byte offset inside the last record; after OnStart the restored round state (votes, lock, proposal, parts, step) must equal the pre-crash digest for an intact log and lie between the digests before and after the last record for a torn one; restart must not panic, the signature ledger must show no contradiction, and the fair suffix must still decide.",
    note="Crash points are sampled per run (seeded), not enumerated exhaustively: evidence reports distinct (restart, truncation) cases reached. Findings F2 and F6 (and uncompensated F1) are reported as KNOWN-FINDING under keys that name their precondition, so other replay defects under other preconditions are still reported."),
+ "C08": dict(engine="csim", level="exploration", design="4 C08",
+   text="While real multi-validator heights run under the usual schedule noise, a seeded adversarial peer sends structure-aware hostile messages of every consensus message type (one boundary or hostile value per message: negative, zero, maximal and off-by-one indices, heights and rounds, nil fields, foreign or missing signatures, impossible lengths, malformed bit arrays) and raw byte strings (empty, truncated, bit-flipped, random, absurd length prefix) on all four consensus channels, at whatever step the receiver is in. A panic on any goroutine the node owns, an abort of the process (out of memory), a consensus-state digest changed by an invalid message, or a node that no longer commits in the fair suffix are violations; a panic inside Receive is counted, the peer is dropped and reconnected as production does.",
+   note="Covers the consensus reactor's Receive and everything behind it on the consensus routine. Block-sync, mempool and peer-exchange reactors and the real MConnection byte path are not in this engine (not claimed here). Inputs are sampled from a fixed catalogue of 60 mutation kinds x seeded parameters."),
  "C12": dict(engine="csim", level="exploration", design="4 C12",
    text="After every adversarial prefix the fair suffix stops faults, restarts crashed nodes and delivers every pending message and timeout in canonical order; every honest node must commit the next height within a generous bound on simulated time. A panic or gcmn.Exit on any node goroutine, and a node blocked while holding its state lock, are reported at any time.",
    note="Gossip routines are replaced by the harness's fair delivery (including the peer-majority claims queryMaj23Routine would send); the bound is 3N+5 rounds of growing timeouts plus per-height catch-up allowance."),
+ "C17": dict(engine="partsim", level="exploration", design="4 C17",
+   text="Sender part set -> adversarial network -> receiver that knows only the header: data lengths and part sizes incl. 1-byte parts, exact multiples and off-by-one; arrival permutations with duplicates; one mutation per delivered copy (bytes, index negative/total/beyond/other, each aunt, extra/missing aunt, proof of another part). A part must be accepted iff it is the genuine part at that index, rejected parts must leave the set unchanged, the completed set must reassemble to the original bytes and hash; every generated Merkle proof verifies and none verifies for another leaf, index or total.",
+   note="Component engine (no clock). The consensus-goroutine side (a hostile part arriving at a running validator) is exercised by C08's injections part-*. Known finding F8 (root does not commit to the leaf count) is reported as KNOWN-FINDING."),
  "C15": dict(engine="csim", level="exploration", design="4 C15",
    text="After every step every vote set of every honest node is compared with the harness ledger: a reported +2/3 majority (or +2/3-any) must be backed by valid votes of distinct validators offered to that node, must never change, and the commit assembled from it must pass the harness's own commit verifier.",
    note="In-vivo direction only (no false majority); the converse direction and overflow-boundary powers are the subject of votesim (not yet registered)."),
@@ -35,12 +41,10 @@ CLAIMS = {
 PLANNED = {
  "C05": "not claimed yet: execsim (replicas x process histories x verifier schedules over the real EVM app) not built in this revision",
  "C06": "not claimed yet: crashsim (exhaustive single-crash enumeration over the commit path with the real EVM app) not built in this revision",
- "C08": "not claimed yet: structure-aware message injection into csim not built in this revision",
  "C09": "not claimed yet: execsim adversarial transaction generator not built in this revision",
  "C11": "not claimed yet: triesim not built in this revision",
  "C13": "not claimed yet: syncsim not built in this revision",
  "C14": "not claimed yet: admin workload of execsim not built in this revision",
- "C17": "not claimed yet: partsim not built in this revision",
  "C19": "not claimed yet: poolsim not built in this revision",
  "C20": "not claimed yet: p2psim not built in this revision",
 }
@@ -72,6 +76,7 @@ def main():
         dict(name="instr", path="/verif/instr", serves_properties=sorted(CLAIMS), kind_free_text="go/ast instrumenter applied to the scratch copy: go statements -> simhook.Go (level 0), lock sites -> simhook.LockF (level 1)"),
         dict(name="csim", path="/verif/sims/csim", serves_properties=[p for p in sorted(CLAIMS) if "csim" in CLAIMS[p]["engine"]], kind_free_text="message-level consensus simulator: real ConsensusState/Reactor.Receive/WAL/signer/store per validator, Byzantine puppets, run-to-quiescence in a synctest bubble"),
         dict(name="signersim", path="/verif/sims/signersim", serves_properties=["C03"], kind_free_text="crash-point and write-error enumeration over the real signer file"),
+        dict(name="partsim", path="/verif/sims/partsim", serves_properties=["C17"], kind_free_text="part-set sender/receiver with reordering, duplicating, mutating network; Merkle proof mutations"),
         dict(name="valsetsim", path="/verif/sims/valsetsim", serves_properties=["C16"], kind_free_text="validator-set histories replayed on differently-batched / persisted replicas"),
     ]
     m = dict(version=1, setup_cmd="./verif setup", hooks=hooks, engines=engines, checks=checks, not_applicable=na,
